@@ -85,7 +85,7 @@ pub fn dec_as<T: Serial + Deserial>(b: &[u8]) -> DecOut {
         Ok((Ok(v), pos)) => match vmon_core::catch(|| concordium_base::common::to_bytes(&v)) {
             Ok(mut re) => {
                 // self-test switch (planted break of the harness's own reference, never set by ./vcheck)
-                if re.len() == 2 && re[1] == 0x5a && std::env::var("VMON_SELFTEST_BREAK").as_deref() == Ok("c05") {
+                if re.len() == 2 && re[1] == 0x5a && util::selftest("c05") {
                     re[1] ^= 1;
                 }
                 DecOut { res: Ok((pos, re)), panic: None, stats, set_ok: None }
@@ -568,11 +568,11 @@ pub fn run(ctx: &ChildCtx, sh: &mut Shard) {
             fragile.insert(tv.clone());
         }
         let is_fragile = fragile.contains(&tv) || run.abort_prone.contains(e.name);
-        let budget: u64 = if heavy { 30 } else { 260 };
+        let budget: u64 = if heavy { 20 } else { 260 };
         let budget = if nodebug { budget / 2 } else { budget };
         // --- systematic part
         // truncation at (sampled) every offset
-        let step = (n / 48).max(1);
+        let step = (n / if heavy { 16 } else { 48 }).max(1);
         let mut off = r.below(step as u64) as usize;
         while off < n {
             run.eval(e, idx, "truncate_at", &b[..off], &b);
@@ -591,7 +591,7 @@ pub fn run(ctx: &ChildCtx, sh: &mut Shard) {
         }
         // length-field inflation on sampled windows, ascending values, stop at the first violation per window
         if n > 0 && !is_fragile {
-            let windows = if heavy { 6 } else { 24 };
+            let windows = if heavy { 4 } else { 24 };
             for _ in 0..windows {
                 let w = *r.pick(&[1usize, 2, 4, 8]);
                 if w > n {
@@ -607,6 +607,9 @@ pub fn run(ctx: &ChildCtx, sh: &mut Shard) {
                 // sample the 2^k ladder for wide windows, always keep the extremes
                 for (vi, v) in vals.iter().enumerate() {
                     if vals.len() > 12 && vi % 3 != (idx % 3) as usize && vi + 3 < vals.len() {
+                        continue;
+                    }
+                    if heavy && vi % 4 != (idx % 4) as usize && vi + 2 < vals.len() {
                         continue;
                     }
                     util::write_be(&mut m, off, w, *v);
